@@ -310,6 +310,14 @@ func (g *Gen) next() *Op {
 	if len(s.ActID) > 0 && g.chance(0.3) {
 		return g.respond()
 	}
+	// a module that owns a context keeps driving it (keeper API ops)
+	hasMod := false
+	for _, rc := range s.Ctxs {
+		hasMod = hasMod || rc.ModuleName != ""
+	}
+	if hasMod && g.chance(0.07) {
+		return g.ctxOp(true)
+	}
 	x := rng.Intn(100)
 	if x >= 64 && x < 82 && len(s.ActID) == 0 && g.chance(0.8) {
 		// nothing is pending: make progress towards a batch instead of a hopeless response
@@ -420,7 +428,7 @@ func (g *Gen) next() *Op {
 	case x < 82:
 		return g.respond()
 	case x < 92:
-		return g.ctxOp()
+		return g.ctxOp(false)
 	case x < 97:
 		o := &Op{Kind: "withdraw", Owner: pick(rng, ownerAtoms)}
 		if g.chance(0.5) {
@@ -728,7 +736,7 @@ func beU64(b []byte) uint64 {
 	return x
 }
 
-func (g *Gen) ctxOp() *Op {
+func (g *Gen) ctxOp(forceModule bool) *Op {
 	rng := g.rng
 	r := g.r
 	s := r.snap
@@ -737,14 +745,34 @@ func (g *Gen) ctxOp() *Op {
 	o := &Op{Who: pick(rng, consumerAtoms)}
 	var rc types.RequestContext
 	have := false
-	if len(ids) > 0 && g.chance(0.93) {
+	// contexts owned by a module are driven by that module through the keeper API (modupd, modpause,
+	// modstart, modkill): a good part of the context ops while such contexts exist (about a quarter of all context ops). The keeper API is
+	// never aimed at a context WITHOUT a module (no module would; wf_op excludes it).
+	var modIDs []string
+	for _, id := range ids {
+		if s.Ctxs[id].ModuleName != "" {
+			modIDs = append(modIDs, id)
+		}
+	}
+	viaModule := len(modIDs) > 0 && (forceModule || g.chance(0.5))
+	switch {
+	case viaModule && g.chance(0.96):
+		id := modIDs[rng.Intn(len(modIDs))]
+		o.Tx, o.Idx = splitCtx([]byte(id))
+		rc, have = s.Ctxs[id], true
+		if g.chance(0.9) {
+			o.Who = a.atomOfAddr(rc.Consumer)
+		}
+	case viaModule:
+		o.Tx, o.Idx = g.freshTx(), 0 // no such context
+	case len(ids) > 0 && g.chance(0.93):
 		id := ids[rng.Intn(len(ids))]
 		o.Tx, o.Idx = splitCtx([]byte(id))
 		rc, have = s.Ctxs[id], true
 		if g.chance(0.88) {
 			o.Who = a.atomOfAddr(rc.Consumer)
 		}
-	} else {
+	default:
 		o.Tx, o.Idx = g.freshTx(), 0
 	}
 	// weights (pause, start, kill, update) by the state of the target
@@ -827,6 +855,23 @@ func (g *Gen) ctxOp() *Op {
 			if g.chance(0.4) {
 				totals := []int64{1, 2, 3, 5, -1}
 				o.Total = totals[rng.Intn(len(totals))]
+			}
+		}
+	}
+	if viaModule {
+		o.Kind = map[string]string{"pause": "modpause", "start": "modstart", "kill": "modkill", "updctx": "modupd"}[o.Kind]
+		if o.Kind == "modupd" {
+			// thresholds 0 (keep) .. 4: below, at and above the number of providers (given or kept)
+			o.Thr = int64(rng.Intn(5))
+			n := len(o.Provs)
+			if n == 0 && have {
+				n = len(rc.Providers)
+			}
+			if n > 0 && g.chance(0.5) {
+				o.Thr = int64(1 + rng.Intn(n)) // acceptable, and mostly a change
+			}
+			if g.chance(0.3) {
+				o.Thr = 0
 			}
 		}
 	}
